@@ -108,8 +108,8 @@ func (p *prover) norm(v ssa.Value) term {
 		}
 		return term{}
 	case *ssa.Convert:
-		// integer-to-integer conversions are assumed not to wrap (64-bit int; sizes are < 2^32)
-		if isIntType(x.X.Type()) && isIntType(x.Type()) {
+		// integer-to-integer conversions: looked through only when they cannot change the value
+		if isIntType(x.X.Type()) && isIntType(x.Type()) && p.valuePreserving(x) {
 			return p.norm(x.X)
 		}
 	case *ssa.ChangeType:
@@ -854,4 +854,50 @@ func (p *prover) nonNeg(v ssa.Value, depth int) bool {
 	}
 	t := p.normNoLoop(v)
 	return t.ok && p.g.prove("0", t.sym, t.off)
+}
+
+func intInfo(t types.Type) (size int, unsigned bool) {
+	b := t.Underlying().(*types.Basic)
+	unsigned = b.Info()&types.IsUnsigned != 0
+	switch b.Kind() {
+	case types.Int8, types.Uint8:
+		size = 1
+	case types.Int16, types.Uint16:
+		size = 2
+	case types.Int32, types.Uint32:
+		size = 4
+	default:
+		size = 8 // int, uint, int64, uint64, uintptr on the 64-bit targets the teamserver is built for
+	}
+	return
+}
+
+// valuePreserving: the conversion cannot wrap or change sign for the values its operand can take.
+func (p *prover) valuePreserving(x *ssa.Convert) bool {
+	ss, su := intInfo(x.X.Type())
+	ds, du := intInfo(x.Type())
+	switch {
+	case su == du && ds >= ss:
+		return true // widening, same signedness
+	case su && !du && ds > ss:
+		return true // unsigned into a strictly wider signed type
+	}
+	// otherwise only when the operand is known to lie in [0, 2^31): sizes and counts
+	nonneg := p.nonNeg(x.X, 0)
+	if !nonneg {
+		return false
+	}
+	if ds >= ss {
+		return true // non-negative value, same or larger width (int -> uint, int64 -> uint64 …)
+	}
+	// narrowing of a non-negative value: safe only if it provably fits
+	t := p.normNoLoop(x.X)
+	limit := int64(1)<<(uint(ds)*8-1) - 1
+	if du {
+		limit = int64(1)<<(uint(ds)*8) - 1
+		if ds == 8 {
+			limit = inf
+		}
+	}
+	return t.ok && p.g.prove(t.sym, "0", limit-t.off)
 }
